@@ -139,7 +139,11 @@ class _Mixin:
         return o
 
     def __iter__(self):
-        return iter(SCHED.order(list(self._ord)))
+        elems = list(self._ord)
+        if len(elems) >= 2 and not _volatile(elems):
+            # ints/floats/None: CPython's order is the same in every process -> keep the real table order
+            return (set if isinstance(self, set) else frozenset).__iter__(self)
+        return iter(SCHED.order(elems))
 
     def __repr__(self):
         if not len(self):
